@@ -456,3 +456,110 @@ func Hist(t *rapid.T, vi int, max int) History {
 	}
 	return h
 }
+
+// Alphabet exposes the mutation alphabet.
+func Alphabet() string { return alphabet }
+
+// OneEditNeighbourhood enumerates, deterministically and completely, every
+// string at one structural edit from s: every byte deleted, every byte replaced
+// by / every position receiving each alphabet byte, every truncation, and for
+// the '/'-separated elements: each deleted, each duplicated at every position,
+// each adjacent pair swapped, each moved to every position, an empty element at
+// every position.
+func OneEditNeighbourhood(vi int, s string) []string {
+	var out []string
+	for i := 0; i < len(s); i++ {
+		out = append(out, s[:i]+s[i+1:], s[:i])
+		for k := 0; k < len(alphabet); k++ {
+			if alphabet[k] != s[i] {
+				out = append(out, s[:i]+alphabet[k:k+1]+s[i+1:])
+			}
+		}
+	}
+	for i := 0; i <= len(s); i++ {
+		for k := 0; k < len(alphabet); k++ {
+			out = append(out, s[:i]+alphabet[k:k+1]+s[i:])
+		}
+	}
+	x := split(vi, s)
+	n := len(x.elems)
+	ins := func(xs []string, j int, el string) []string {
+		o := append([]string{}, xs[:j]...)
+		o = append(o, el)
+		return append(o, xs[j:]...)
+	}
+	rm := func(xs []string, i int) []string {
+		o := append([]string{}, xs[:i]...)
+		return append(o, xs[i+1:]...)
+	}
+	for i := 0; i < n; i++ {
+		out = append(out, vec{x.header, rm(x.elems, i)}.join())
+		for j := 0; j <= n; j++ {
+			out = append(out, vec{x.header, ins(x.elems, j, x.elems[i])}.join())
+			if j < n && j != i {
+				out = append(out, vec{x.header, ins(rm(x.elems, i), j, x.elems[i])}.join())
+			}
+		}
+		if i+1 < n {
+			e := append([]string{}, x.elems...)
+			e[i], e[i+1] = e[i+1], e[i]
+			out = append(out, vec{x.header, e}.join())
+		}
+	}
+	for j := 0; j <= n; j++ {
+		out = append(out, vec{x.header, ins(x.elems, j, "")}.join())
+	}
+	for _, h := range headers {
+		out = append(out, h+strings.TrimPrefix(s, x.header))
+	}
+	return out
+}
+
+// Representatives returns a fixed set of valid vectors per version covering
+// every layout (v2), base-only / all-defined / all-explicit-X (v3, v4).
+func Representatives() []Valid {
+	var out []Valid
+	add := func(vi int, a spec.Assignment, written []string, layout string) {
+		v := spec.Versions[vi]
+		out = append(out, Valid{Ver: vi, S: spec.Spell(v, a, written), A: a, Written: written, Layout: layout})
+	}
+	for vi, v := range spec.Versions {
+		last, first := spec.Assignment{}, spec.Assignment{}
+		var all, base []string
+		for _, m := range v.Metrics {
+			last[m.Abv] = m.Vals[len(m.Vals)-1]
+			first[m.Abv] = m.Vals[0]
+			all = append(all, m.Abv)
+			if m.Mandatory {
+				base = append(base, m.Abv)
+			}
+		}
+		if v.Name == "2.0" {
+			add(vi, withND(v, last, 6, 14), all[:6], "base")
+			add(vi, withND(v, last, 9, 14), all[:9], "base+temporal")
+			add(vi, withND(v, last, 6, 9), append(append([]string{}, all[:6]...), all[9:]...), "base+env")
+			add(vi, last, all, "base+temporal+env")
+			add(vi, first, all, "base+temporal+env")
+			continue
+		}
+		add(vi, withND(v, last, len(base), len(all)), base, "spec-order")
+		add(vi, last, all, "spec-order")
+		add(vi, first, all, "spec-order") // every optional metric written as explicit X
+		if v.Name != "4.0" {
+			rev := append([]string{}, all...)
+			for i, j := 0, len(rev)-1; i < j; i, j = i+1, j-1 {
+				rev[i], rev[j] = rev[j], rev[i]
+			}
+			add(vi, last, rev, "shuffled")
+		}
+	}
+	return out
+}
+
+func withND(v *spec.Version, a spec.Assignment, from, to int) spec.Assignment {
+	b := a.Clone()
+	for _, m := range v.Metrics[from:to] {
+		b[m.Abv] = v.ND
+	}
+	return b
+}
